@@ -147,11 +147,15 @@ pub struct GraphLogger {
     /// test hook: drop the n-th logged own edge (binding self-test from the driver side is done
     /// on the trace file; this stays None)
     pub max_nodes: usize,
+    /// expected outcome of the next logged transaction (catalogue programs), else "any"
+    pub expect: &'static str,
+    /// error class of the next logged transaction ("" for success)
+    pub err: String,
 }
 
 impl GraphLogger {
     pub fn new() -> Self {
-        GraphLogger { ids: BTreeMap::new(), prev: BTreeMap::new(), out: Out::new(), events: 0, commits: 0, max_nodes: 0 }
+        GraphLogger { ids: BTreeMap::new(), prev: BTreeMap::new(), out: Out::new(), events: 0, commits: 0, max_nodes: 0, expect: "any", err: String::new() }
     }
     fn id(&mut self, n: &NodeId, fresh: &mut Vec<Value>) -> u32 {
         if let Some(i) = self.ids.get(n) {
@@ -215,7 +219,7 @@ impl GraphLogger {
         } else {
             ("skipped", String::new(), String::new())
         };
-        self.out.emit(&json!({"a": "commit", "label": label, "outcome": outcome, "ids": fresh, "upd": upd, "del": del,
+        self.out.emit(&json!({"a": "commit", "label": label, "outcome": if self.err.is_empty() { outcome.to_string() } else { format!("{}:{}", outcome, self.err) }, "expect": self.expect, "ids": fresh, "upd": upd, "del": del,
                               "checker": checker, "kernel": kernel, "system": system}));
         self.max_nodes = self.max_nodes.max(g.len());
         self.prev = g;
@@ -636,6 +640,8 @@ fn history(args: &Args) {
     // node operations that were part of a successful transaction (projection for the driver's non-vacuity check)
     let mut ops_ok: BTreeMap<String, u64> = BTreeMap::new();
     let mut force_checker = false;
+    // what the catalogue says about the transaction being executed: "success" | "failure" (refused) | "any"
+    let mut expect: &'static str = "any";
     for run in 0..runs {
         let mut rng = StdRng::seed_from_u64(seed.wrapping_add(run as u64 * 7919));
         let mut ledger = crate::limits::new_ledger();
@@ -654,7 +660,7 @@ fn history(args: &Args) {
         if run == 0 {
             native_catalogue(&mut ledger, &mut log, &mut accounts, &mut resources, &mut outcomes);
         }
-        let mut catalogue: Vec<Vec<GOp>> = if run == 0 { catalogue_programs() } else { vec![] };
+        let mut catalogue: Vec<(Vec<GOp>, &'static str)> = if run == 0 { catalogue_programs() } else { vec![] };
         catalogue.reverse();
         for _ in 0..catalogue.len() {
             todo.insert(0, 99);
@@ -727,7 +733,13 @@ fn history(args: &Args) {
                     }
                     let comp = comps[rng.gen_range(0..comps.len())];
                     let from_catalogue = action == 99;
-                    let mut ops = if from_catalogue { catalogue.pop().unwrap() } else { random_gops(&mut rng) };
+                    let mut ops = if from_catalogue {
+                        let (o, e) = catalogue.pop().unwrap();
+                        expect = e;
+                        o
+                    } else {
+                        random_gops(&mut rng)
+                    };
                     let comp = if from_catalogue { comps[0] } else { comp };
                     let mut globals: Vec<GlobalAddress> = vec![ledger.faucet_component(), XRD.into(), pkg.into(), CONSENSUS_MANAGER.into()];
                     globals.extend(comps.iter().map(|c| GlobalAddress::from(*c)));
@@ -768,9 +780,14 @@ fn history(args: &Args) {
             *outcomes.entry(format!("{}:{}", status, class)).or_default() += 1;
             if matches!(receipt.result, TransactionResult::Commit(_)) {
                 step += 1;
+                log.expect = expect;
+                log.err = class.clone();
                 log.commit(ledger.substate_db(), &label, &status, force_checker || step % checker_every == 0);
+                log.expect = "any";
+                log.err = String::new();
             }
             force_checker = false;
+            expect = "any";
         }
     }
     log.out.emit(&json!({"a": "summary", "outcomes": outcomes, "ops_ok": ops_ok, "commits": log.commits, "max_nodes": log.max_nodes}));
@@ -869,53 +886,55 @@ fn native_catalogue(
 
 /// Fixed programs for one G component (executed in this order, the state accumulates): every node
 /// operation in a transaction that succeeds, and every way a transaction is refused half-way.
-fn catalogue_programs() -> Vec<Vec<GOp>> {
+/// Each program states what the ownership / reference rules (spec/NodeGraph/NodeGraph.tla, Graph.tla)
+/// make of it: "success", or the refusal it must meet; TraceNodeGraph compares that with the engine.
+fn catalogue_programs() -> Vec<(Vec<GOp>, &'static str)> {
     use GOp::*;
     vec![
-        vec![],
-        vec![NewObj(0), StoreInKv(1, 0)],                                  // object into a KV entry
-        vec![NewObj(0), StoreInKv(1, 0)],                                  // overwrite an entry that owns a node: refused
-        vec![RemoveKv(1)],                                                 // remove an entry that owns a node: refused
-        vec![NewObj(0), StoreInField(0)],                                  // object into the field
-        vec![ClearField],                                                  // drop a stored own: refused
-        vec![NewObj(0), StoreInField(0)],                                  // overwrite the owning field: refused
-        vec![NewKv(0), NewObj(1), PutInKv(0, 1, 1), StoreInKv(2, 0)],      // heap KV store with an object inside, moved to the store
-        vec![NewObj(0), NewObj(1), Nest(0, 1), StoreInKv(3, 0)],           // two levels
-        vec![NewObj(0), NewObj(1), NewObj(2), Nest(1, 2), Nest(0, 1), StoreInKv(4, 0)], // three levels
-        vec![NewObj(0), Globalize(0)],
-        vec![NewObj(0), NewObj(1), Nest(0, 1), Globalize(0)],              // a global object that owns a child
-        vec![NewVault(0), StoreInKv(5, 0)],
-        vec![NewKv(0), NewVault(1), PutInKv(0, 0, 1), StoreInKv(6, 0)],    // vault inside a KV store
-        vec![StoreRef(7, 0), StoreRef(8, 1), StoreRef(9, 2), StoreRef(10, 3)], // references to global entities of four kinds
-        vec![NewObj(0), StoreInternalRef(11, 0), Drop(0)],                 // reference to an internal node: refused
-        vec![NewObj(0), StoreTwice(12, 0)],                                // the same node owned twice: refused
-        vec![NewObj(0)],                                                   // leaked object: refused
-        vec![NewKv(0)],                                                    // leaked KV store: refused
-        vec![NewObj(0), StoreInKv(13, 0), Panic],                          // fails after a node was already stored
-        vec![NewObj(0), Drop(0)],
-        vec![NewObj(0), NewObj(1), Nest(0, 1), Drop(0)],                   // dropping a parent hands the child back: leaked, refused
-        vec![NewKv(0), NewKv(1), PutInKv(0, 1, 1), StoreInKv(14, 0)],      // KV store inside a KV store
-        vec![NewObj(0), NewKv(1), Nest(0, 1), StoreInKv(15, 0)],           // object that owns a KV store
-        vec![NewObj(0), NewObj(1), StoreInKv(16, 0), StoreInKv(17, 1), StoreRef(18, 4)], // several stores in one transaction
+        (vec![], "success"),
+        (vec![NewObj(0), StoreInKv(1, 0)], "success"),                                  // object into a KV entry
+        (vec![NewObj(0), StoreInKv(1, 0)], "failure:CallFrame:WriteSubstateError.ProcessSubstateError.CantDropNodeInStore"),                                  // overwrite an entry that owns a node: refused
+        (vec![RemoveKv(1)], "failure:CallFrame:WriteSubstateError.ProcessSubstateError.CantDropNodeInStore"),                                                 // remove an entry that owns a node: refused
+        (vec![NewObj(0), StoreInField(0)], "success"),                                  // object into the field
+        (vec![ClearField], "failure:CallFrame:WriteSubstateError.ProcessSubstateError.CantDropNodeInStore"),                                                  // drop a stored own: refused
+        (vec![NewObj(0), StoreInField(0)], "failure:CallFrame:WriteSubstateError.ProcessSubstateError.CantDropNodeInStore"),                                  // overwrite the owning field: refused
+        (vec![NewKv(0), NewObj(1), PutInKv(0, 1, 1), StoreInKv(2, 0)], "success"),      // heap KV store with an object inside, moved to the store
+        (vec![NewObj(0), NewObj(1), Nest(0, 1), StoreInKv(3, 0)], "success"),           // two levels
+        (vec![NewObj(0), NewObj(1), NewObj(2), Nest(1, 2), Nest(0, 1), StoreInKv(4, 0)], "success"), // three levels
+        (vec![NewObj(0), Globalize(0)], "success"),
+        (vec![NewObj(0), NewObj(1), Nest(0, 1), Globalize(0)], "success"),              // a global object that owns a child
+        (vec![NewVault(0), StoreInKv(5, 0)], "success"),
+        (vec![NewKv(0), NewVault(1), PutInKv(0, 0, 1), StoreInKv(6, 0)], "success"),    // vault inside a KV store
+        (vec![StoreRef(7, 0), StoreRef(8, 1), StoreRef(9, 2), StoreRef(10, 3)], "success"), // references to global entities of four kinds
+        (vec![NewObj(0), StoreInternalRef(11, 0), Drop(0)], "failure:System:TypeCheckError"),                 // reference to an internal node: refused
+        (vec![NewObj(0), StoreTwice(12, 0)], "failure:CallFrame:WriteSubstateError.SubstateDiffError.ContainsDuplicateOwns"),                                // the same node owned twice: refused
+        (vec![NewObj(0)], "failure:Kernel:OrphanedNodes"),                                                   // leaked object: refused
+        (vec![NewKv(0)], "failure:Kernel:OrphanedNodes"),                                                    // leaked KV store: refused
+        (vec![NewObj(0), StoreInKv(13, 0), Panic], "failure:AppPanic"),                          // fails after a node was already stored
+        (vec![NewObj(0), Drop(0)], "success"),
+        (vec![NewObj(0), NewObj(1), Nest(0, 1), Drop(0)], "failure:Kernel:OrphanedNodes"),                   // dropping a parent hands the child back: leaked, refused
+        (vec![NewKv(0), NewKv(1), PutInKv(0, 1, 1), StoreInKv(14, 0)], "success"),      // KV store inside a KV store
+        (vec![NewObj(0), NewKv(1), Nest(0, 1), StoreInKv(15, 0)], "success"),           // object that owns a KV store
+        (vec![NewObj(0), NewObj(1), StoreInKv(16, 0), StoreInKv(17, 1), StoreRef(18, 4)], "success"), // several stores in one transaction
         // --- every way a reference to a NON-global node could reach the store (all must be refused) ---
         // (entries 1 / 5 / 2 of this component own an object / a vault / a key-value store since the programs above)
-        vec![NewObj(0), HeapRefStored(0, 1), Globalize(0)],                // globalize an object that references a stored internal object
-        vec![NewObj(0), HeapRefStored(0, 5), Globalize(0)],                // ... a vault inside this component
-        vec![NewObj(0), HeapRefStored(0, 2), Globalize(0)],                // ... a key-value store inside this component
-        vec![NewObj(0), HeapRefStored(0, 1), StoreInKv(20, 0)],            // move such an object into a KV entry of a global component
-        vec![NewObj(0), HeapRefStored(0, 5), StoreInField(0)],             // ... into its field
-        vec![NewObj(0), NewObj(1), HeapRefStored(1, 1), Nest(0, 1), Globalize(0)], // the reference sits in a child of the globalized object
-        vec![NewKv(0), NewObj(1), HeapRefStored(1, 1), PutInKv(0, 0, 1), StoreInKv(21, 0)], // ... inside a KV store that is moved
-        vec![NewObj(0), NewObj(1), HeapRef(0, 1), Globalize(0), Drop(1)],   // reference to a heap sibling, then globalize
-        vec![NewObj(0), NewObj(1), HeapRef(0, 1), Globalize(0), StoreInKv(22, 1)], // ... and store the sibling
-        vec![NewObj(0), NewObj(1), HeapRef(0, 1), Nest(0, 1), Globalize(0)], // reference to its own child
-        vec![NewObj(0), NewObj(1), HeapRef(0, 1), StoreInKv(23, 0), StoreInKv(24, 1)], // both stored
-        vec![SelfRefStored(1)],                                            // kernel-level write into a field of the global component
-        vec![SelfRefStored(5)],
-        vec![KvRefStored(25, 1)],                                          // system-level write into its KV entry
-        vec![KvRefStored(26, 5)],
-        vec![NewKv(0), HeapKvRefStored(0, 0, 1), StoreInKv(27, 0)],        // a heap KV store holding such a reference, then moved
-        vec![NewObj(0), HeapRefStored(0, 1), Drop(0)],                     // harmless: the referencing object never leaves the heap
+        (vec![NewObj(0), HeapRefStored(0, 1), Globalize(0)], "failure:CallFrame:MovePartitionError.NonGlobalRefNotAllowed.NodeId"),                // globalize an object that references a stored internal object
+        (vec![NewObj(0), HeapRefStored(0, 5), Globalize(0)], "failure:CallFrame:MovePartitionError.NonGlobalRefNotAllowed.NodeId"),                // ... a vault inside this component
+        (vec![NewObj(0), HeapRefStored(0, 2), Globalize(0)], "failure:CallFrame:MovePartitionError.NonGlobalRefNotAllowed.NodeId"),                // ... a key-value store inside this component
+        (vec![NewObj(0), HeapRefStored(0, 1), StoreInKv(20, 0)], "failure:CallFrame:WriteSubstateError.ProcessSubstateError.PersistNodeError"),            // move such an object into a KV entry of a global component
+        (vec![NewObj(0), HeapRefStored(0, 5), StoreInField(0)], "failure:CallFrame:WriteSubstateError.ProcessSubstateError.PersistNodeError"),             // ... into its field
+        (vec![NewObj(0), NewObj(1), HeapRefStored(1, 1), Nest(0, 1), Globalize(0)], "failure:CallFrame:MovePartitionError.PersistNodeError.ContainsNonGlobalRef"), // the reference sits in a child of the globalized object
+        (vec![NewKv(0), NewObj(1), HeapRefStored(1, 1), PutInKv(0, 0, 1), StoreInKv(21, 0)], "failure:CallFrame:WriteSubstateError.ProcessSubstateError.PersistNodeError"), // ... inside a KV store that is moved
+        (vec![NewObj(0), NewObj(1), HeapRef(0, 1), Globalize(0), Drop(1)], "failure:CallFrame:MovePartitionError.NonGlobalRefNotAllowed.NodeId"),   // reference to a heap sibling, then globalize
+        (vec![NewObj(0), NewObj(1), HeapRef(0, 1), Globalize(0), StoreInKv(22, 1)], "failure:CallFrame:MovePartitionError.NonGlobalRefNotAllowed.NodeId"), // ... and store the sibling
+        (vec![NewObj(0), NewObj(1), HeapRef(0, 1), Nest(0, 1), Globalize(0)], "failure:CallFrame:MovePartitionError.PersistNodeError.NodeBorrowed"), // reference to its own child
+        (vec![NewObj(0), NewObj(1), HeapRef(0, 1), StoreInKv(23, 0), StoreInKv(24, 1)], "failure:CallFrame:WriteSubstateError.ProcessSubstateError.PersistNodeError"), // both stored
+        (vec![SelfRefStored(1)], "failure:CallFrame:WriteSubstateError.ProcessSubstateError.NonGlobalRefNotAllowed"),                                            // kernel-level write into a field of the global component
+        (vec![SelfRefStored(5)], "failure:CallFrame:WriteSubstateError.ProcessSubstateError.NonGlobalRefNotAllowed"),
+        (vec![KvRefStored(25, 1)], "failure:System:TypeCheckError"),                                          // system-level write into its KV entry
+        (vec![KvRefStored(26, 5)], "failure:System:TypeCheckError"),
+        (vec![NewKv(0), HeapKvRefStored(0, 0, 1), StoreInKv(27, 0)], "failure:System:TypeCheckError"),        // a heap KV store holding such a reference, then moved
+        (vec![NewObj(0), HeapRefStored(0, 1), Drop(0)], "success"),                     // harmless: the referencing object never leaves the heap
     ]
 }
 
